@@ -41,9 +41,9 @@ def plausible (b : Bytes) : Bool := validMethod b || validVersion b
 (0 only at the end of the stream); `space = min(capacity, max) - read`, the capacity grows by at least 512
 whenever fewer than 512 bytes are spare (the growth beyond that minimum is `gs`: allocator's choice). -/
 def readHeadersLoop : (fuel : Nat) → (buf : Bytes) → (cap : Nat) → (stream : Bytes) → (sched : List Nat) →
-    (gs : List Nat) → (max : Nat) → Except Err Bytes
-  | 0, buf, _, _, _, _, _ => .ok buf
-  | fuel + 1, buf, cap, stream, sched, gs, max =>
+    (gs : List Nat) → (max : Nat) → (eof : Bool) → Except Err Bytes
+  | 0, buf, _, _, _, _, _, _ => .ok buf
+  | fuel + 1, buf, cap, stream, sched, gs, max, eof =>
     if buf.length ≥ max then .error .headerTooLong else
     let need := if buf.length + 512 > max then buf.length + (buf.length + 512 - max) else buf.length + 512
     let cap' := if cap < buf.length + 512 then (if cap ≥ need then cap else need) + gs.headD 0 else cap
@@ -53,14 +53,18 @@ def readHeadersLoop : (fuel : Nat) → (buf : Bytes) → (cap : Nat) → (stream
     let k := min (min (Nat.max (sched.headD space) 1) space) stream.length
     let buf' := buf ++ stream.take k
     if k = 0 then
-      (if plausible buf' then .ok buf' else .error .syntax)
+      -- nothing more on the stream: the peer closed (`read` returns 0), or it keeps the connection open and the
+      -- read times out
+      (if !eof then .error .unexpectedEnd else if plausible buf' then .ok buf' else .error .syntax)
     else if buf'.length ≥ 9 && !plausible buf' then .error .syntax
     else if containsTwoNewlines buf' then
       (if plausible buf' then .ok buf' else .error .syntax)
-    else readHeadersLoop fuel buf' cap' (stream.drop k) sched.tail gs' max
+    else readHeadersLoop fuel buf' cap' (stream.drop k) sched.tail gs' max eof
 
-def readHeaders (stream : Bytes) (sched gs : List Nat) (max : Nat) : Except Err Bytes :=
-  readHeadersLoop (stream.length + 2) [] 512 stream sched gs max
+/-- `eof = true`: the peer closes after `stream`; `eof = false`: it keeps the connection open (a keep-alive client
+waiting for its response), so a read with nothing to deliver runs into the time-out -/
+def readHeaders (stream : Bytes) (sched gs : List Nat) (max : Nat) (eof : Bool := true) : Except Err Bytes :=
+  readHeadersLoop (stream.length + 2) [] 512 stream sched gs max eof
 
 /-! ### `parse::headers` -/
 def isTchar (b : UInt8) : Bool :=
